@@ -3,6 +3,8 @@ chart through Chart.from_file, fetch the track and compare aspects of its note e
 model (cpverif.model.expected_notes)."""
 from __future__ import annotations
 
+import zlib
+
 from cpverif import spec as S
 from cpverif.lib import L
 
@@ -74,12 +76,57 @@ def _decoys(header: str, lines: list[str], mode: int) -> dict[str, list[str]]:
     return out
 
 
+# global events every chart editor and game knows ("end" is where Clone Hero stops a song, "section ..."
+# opens a practice section, ...): what stands in [Events] never changes what a track contains
+_EVENT_WORDS = ["end", "music_start", "section Chorus 1", "lyric la", "phrase_start", "end", "music_end", "coda",
+                "phrase_end", "idle", "section end", "solo", "soloend", "half_tempo", "End", "section Verse 2a",
+                "lighting (chase)", "crowd_noclap", "play", "lyric end"]
+
+
+def _global_events(lines: list[str]) -> list[list]:
+    """Two out of three sections get 1..3 global events at ticks of their own lines (first third, middle,
+    just behind the first line): a deterministic function of the section's text."""
+    ticks = sorted({int(l.split(" ", 1)[0]) for l in lines if l[:1].isdigit()})
+    k = zlib.crc32("\n".join(lines[:40]).encode())
+    if not ticks or k % 3 == 0:
+        return []
+    at = [ticks[len(ticks) // 3], ticks[len(ticks) // 2], ticks[0] + 1][: 1 + (k >> 4) % 3]
+    evs = [[t, _EVENT_WORDS[((k >> 8) + 7 * j) % len(_EVENT_WORDS)]] for j, t in enumerate(at)]
+    return sorted(evs, key=lambda e: e[0])
+
+
+# lines that say nothing about notes or star power: track events (whatever their word) and lines that are
+# not of the format (special phrases other than type 2, lane 8, ...), which are skipped with a warning
+_INERT = ["E *", "E T", "E solo", "S 64 {n}", "E soloend", "S 0 {n}", "S 1 {n}", "E N", "E 5", "S 65 {n}",
+          "N 8 0", "E forced", "E tap", "S 66 {n}", "E sp", "E S", "N 9 {n}", "E 6", "S 3 {n}", "E hopo"]
+
+
+def _with_inert(lines: list[str]) -> list[str]:
+    """Two out of three sections get 1..3 inert lines, each appended to one of the section's tick groups
+    (so the section stays in tick order): a deterministic function of the section's text."""
+    k = zlib.crc32("\n".join(lines[:40]).encode()) >> 5
+    if not lines or k % 3 == 0:
+        return lines
+    ends = [i for i in range(len(lines))
+            if i + 1 == len(lines) or lines[i + 1].split(" ", 1)[0] != lines[i].split(" ", 1)[0]]
+    chosen = sorted({ends[(k >> 2) % len(ends)], ends[(k >> 9) % len(ends)], ends[0]})[: 1 + (k >> 14) % 3]
+    out = []
+    for i, ln in enumerate(lines):
+        out.append(ln)
+        if i in chosen:
+            form = _INERT[((k >> 17) + 3 * i) % len(_INERT)]
+            out.append(f"{ln.split(' ', 1)[0]} = " + form.format(n=[0, 1, 5, 100, 10000][(k + i) % 5]))
+    return out
+
+
 def parse_track(ctx, res: int, tempo, lines: list[str], header: str, rc, fmt: int = 0, decoy: int | None = None):
     """Returns (chart, track) or (None, None) after reporting a violation."""
     if decoy is None:
         decoy = (fmt >> 2) % 4 if fmt else (len(lines) % 5 if len(lines) % 5 < 4 else 0) if len(lines) % 2 else 0
     strays = lines[:: max(1, len(lines) // 3)][:3] if (not fmt and len(lines) % 3 == 0) else ()
-    text = chart_text(res, tempo, _decoys(header, lines, decoy), fmt=fmt, strays=strays)
+    secs = _decoys(header, lines, decoy)
+    secs[header] = _with_inert(lines)
+    text = chart_text(res, tempo, secs, events=_global_events(lines), fmt=fmt, strays=strays)
     try:
         chart = L.parse(text)
     except Exception as e:  # noqa: BLE001
